@@ -160,8 +160,11 @@ static void init_headers(void)
 }
 
 /* ------------------------------------------------------------------ tokens */
-enum { SK_EMPTY, SK_GARBAGE, SK_VALID, SK_HMAC_EMPTYKEY, SK_HMAC_PUBPEM, SK_NATURAL, NSK };
-static const char *sk_name[NSK] = { "empty", "garbage", "valid-for-header-alg", "hmac-empty-key", "hmac-pubkey-pem", "valid-for-the-keys-own-alg-under-this-header" };
+enum { SK_EMPTY, SK_GARBAGE, SK_VALID, SK_HMAC_EMPTYKEY, SK_HMAC_PUBPEM, SK_NATURAL, SK_NATIVE0, NSK = SK_NATIVE0 + 6 };
+/* SK_NATIVE0+v: variant v of everything the key can sign by its own nature (rc_native_sign: every hash, r||s and DER for ECDSA, PKCS#1 and
+ * PSS for RSA) over the input with this header -- what a verifier that lets the key decide would take */
+static const char *sk_name[NSK] = { "empty", "garbage", "valid-for-header-alg", "hmac-empty-key", "hmac-pubkey-pem", "valid-for-the-keys-own-alg-under-this-header",
+				    "key-native-0", "key-native-1", "key-native-2", "key-native-3", "key-native-4", "key-native-5" };
 static const char PAYLOAD[] = "{\"sub\":\"x\"}";
 
 /* token for (key, header, sigkind) or NULL when that signature cannot be computed */
@@ -244,6 +247,15 @@ static char *make_token(const pk_t *p, const hd_t *h, int sk)
 		l = rc_hmac(ha, p->vk->pub_pem, strlen(p->vk->pub_pem), input, strlen(input), mac);
 		out = tok_attach(input, mac, l);
 		break;
+	default: {
+		unsigned char *sig;
+		size_t sl;
+		if (sk < SK_NATIVE0 || !p || !p->vk || rc_native_sign(p->vk, sk - SK_NATIVE0, input, strlen(input), &sig, &sl, NULL))
+			break;
+		out = tok_attach(input, sig, sl);
+		free(sig);
+		break;
+	}
 	}
 	free(input);
 	return out;
@@ -714,6 +726,9 @@ static void enumerate_c02(void)
 							/* also under headers that name no algorithm at all: a lenient name parser would take them for the key's own */
 							if (sk == SK_NATURAL && (!p || ha == JWT_ALG_NONE))
 								continue;
+							/* the key's native signatures: under every header that names a real algorithm */
+							if (sk >= SK_NATIVE0 && (!p || !p->vk || sk - SK_NATIVE0 >= rc_native_count(p->vk) || ha == JWT_ALG_NONE || ha >= JWT_ALG_INVAL))
+								continue;
 							if (!vf_case("checker alg=%s key=%s key.alg=%s route=%s header=%s sig=%s",
 								     A < 15 ? tok_alg_names[A] : "INVAL", p ? p->name : "absent",
 								     attrs[a] ? attrs[a] : "-", rt_name[route], HD[h].label, sk_name[sk]))
@@ -772,7 +787,7 @@ static const char *matching_attr(const pk_t *p)
 {
 	if (!p->vk) return "HS256";
 	if (!strcmp(p->vk->kty, "RSA")) return "RS256";
-	if (!strcmp(p->vk->kty, "EC")) return p->vk->bits == 256 ? "ES256" : p->vk->bits == 384 ? "ES384" : "ES512";
+	if (!strcmp(p->vk->kty, "EC")) return !strcmp(p->vk->crv, "secp256k1") ? "ES256K" : p->vk->bits == 256 ? "ES256" : p->vk->bits == 384 ? "ES384" : "ES512";
 	return "EdDSA";
 }
 
@@ -782,13 +797,14 @@ static void enumerate_c03(void)
 	add_pool("rsa2048a");
 	add_pool("p256a");
 	add_pool("ed25519a");
+	add_pool("k256");   /* the key one provider cannot use at all: a refusal, never an unsigned token */
 	if (vf_thorough) {
 		add_oct("oct64", 64, NULL, 0);
 		add_pool("p384");
 		add_pool("ed448");
 		add_pool("rsapss2048");
 	}
-	static const jwt_alg_t ALGS[] = { JWT_ALG_NONE, JWT_ALG_HS256, JWT_ALG_RS256, JWT_ALG_ES256, JWT_ALG_EDDSA, JWT_ALG_PS256, JWT_ALG_INVAL };
+	static const jwt_alg_t ALGS[] = { JWT_ALG_NONE, JWT_ALG_HS256, JWT_ALG_RS256, JWT_ALG_ES256, JWT_ALG_EDDSA, JWT_ALG_PS256, JWT_ALG_ES256K, JWT_ALG_INVAL };
 	/* header shapes of the unsigned-token question */
 	NHD = 0;
 	static const char *hs[] = { "none", "None", "NONE", "nOnE", "none ", " none", "non", "nonee", "HS256", "RS256", "ES256", "EdDSA", "" };
@@ -946,13 +962,16 @@ static void floor_cell(const pk_t *p, jwt_alg_t alg, int expect_usable, int comp
 		n_floor_refused++;
 	if (!expect_usable) {
 		/* a signature that is valid for the key's own family, presented under this algorithm's header */
-		char *nt = make_token(p, &h, SK_NATURAL);
-		if (nt) {
+		for (int sk = SK_NATURAL; sk < NSK; sk++) {
+			/* ... in every hash and encoding the key can make (r||s and DER for ECDSA, PKCS#1 and PSS for RSA) */
+			char *nt = make_token(p, &h, sk);
+			if (!nt)
+				continue;
 			int r3 = jwt_checker_verify(c, nt);
 			vf_obs(r3 == 0);
 			if (r3 == 0)
 				vf_violation(p->vk ? (!strcmp(p->vk->kty, "RSA") ? "verify-below-floor|RSA" : !strcmp(p->vk->kty, "EC") ? "verify-below-floor|EC" : "verify-below-floor|OKP") : "verify-below-floor|oct",
-					     "verify succeeded with %s for %s on a token signed with the key's own algorithm", p->name, tok_alg_names[alg]);
+					     "verify succeeded with %s for %s on a token signed with the key's own algorithm (%s)", p->name, tok_alg_names[alg], sk_name[sk]);
 			free(nt);
 		}
 	}
